@@ -136,6 +136,7 @@ def run_realnet(cfg, out):
     log = []
     keep = {}
     errors = []
+    block = {"arm": False, "entered": None, "left": None}
     old_hook = threading.excepthook
     threading.excepthook = lambda a: errors.append(repr(a.exc_value))
 
@@ -159,6 +160,15 @@ def run_realnet(cfg, out):
 
         def disconnect(self, client):
             self._rec("disconnect", client)
+
+        def update(self, delta_t):
+            if block["arm"]:
+                # the application is busy inside a handler event for longer than anybody would wait for it - while the owner
+                # calls stop() from its own thread
+                block["arm"] = False
+                block["entered"] = time.time()
+                time.sleep(3.6)
+                block["left"] = time.time()
 
         def handle_message(self, client, seqnum, msg=b""):
             self._rec("message", client, (int(seqnum), bytes(msg)))
@@ -238,6 +248,29 @@ def run_realnet(cfg, out):
             cl.getMessages()
         time.sleep(1 / 200)
     time.sleep(0.2)
+    if cfg["shard"] % 2 == 0:
+        # stop() is called while a handler event keeps the server loop busy for 3.6 s: stop() waits; every event still comes
+        # from the server thread
+        last = UdpClient(pub)            # somebody is connected when it happens (the idle loop would not call update())
+        last.connect(("127.0.0.1", port))
+        t_w = time.time() + 3.0
+        while time.time() < t_w and not last.connected():
+            try:
+                last.update()
+            except Exception:
+                pass
+            time.sleep(1 / 200)
+        c.inc("realnet_connections_when_stop_is_called", len(ctxt.connections))
+        block["arm"] = True
+        t_w = time.time() + 2.0
+        while block["entered"] is None and time.time() < t_w:
+            try:
+                last.update()
+            except Exception:
+                pass
+            time.sleep(0.01)
+        if block["entered"] is not None:
+            c.inc("realnet_stop_during_blocked_handler")
     server.stop()
     threading.excepthook = old_hook
     if errors:
@@ -644,7 +677,7 @@ def finish(tier, seed, results):
                          "server_disconnect_in_update", "token_draws_repeating_a_live_token", "handler_raised_in_connect",
                          "handler_raised_in_message", "handler_raised_in_update", "handler_raised_in_disconnect", "connected_at_shutdown",
                          "flow_after_exception_checked", "messages_attributed_to_their_client", "act_hostile_datagram", "realnet_runs",
-                         "realnet_sends", "silence_timeouts_checked", "junk_from_silent_addresses", "rogue_sealed_datagrams", "act_blocklist_connected_client", "last_tick_kick_chains",
+                         "realnet_sends", "realnet_stop_during_blocked_handler", "silence_timeouts_checked", "junk_from_silent_addresses", "rogue_sealed_datagrams", "act_blocklist_connected_client", "last_tick_kick_chains",
                          "server_disconnect_in_disconnect", "shutdown_called_from_handler"], inconclusive)
     cov = {
         "evaluations": m["evaluations"],
